@@ -5,6 +5,7 @@ import (
 	"io"
 	"os"
 	"runtime"
+	"syscall"
 )
 
 func realNumCPU() int { return runtime.NumCPU() }
@@ -18,9 +19,28 @@ func Open(name string) (*os.File, error) {
 		return os.Open(name)
 	}
 	Yield("io-open")
-	if FaultsEnabled() && Choose(2, "open-fault") == 1 {
-		Note("open-injected")
-		return nil, &os.PathError{Op: "open", Path: name, Err: ErrInjected}
+	if FaultsEnabled() {
+		s := cur
+		if s.openAnswer == nil {
+			s.openAnswer = map[string]int{}
+		}
+		ans, short := s.openAnswer[name]
+		if !short {
+			// 0 opened, 1 vanished (each open of a path is answered afresh), 2 out of file descriptors
+			// (that answer sticks to the path for the rest of the execution: a shortage outlasts a retry loop)
+			ans = Choose(3, "open-fault")
+			if ans == 2 {
+				s.openAnswer[name] = ans
+			}
+		}
+		switch ans {
+		case 1:
+			Note("open-injected")
+			return nil, &os.PathError{Op: "open", Path: name, Err: ErrInjected}
+		case 2:
+			Note("open-emfile")
+			return nil, &os.PathError{Op: "open", Path: name, Err: syscall.EMFILE}
+		}
 	}
 	f, err := os.Open(name)
 	Note("open", err != nil)
@@ -72,5 +92,22 @@ func ReadAll(r io.Reader) ([]byte, error) {
 	}
 	b, err := io.ReadAll(r)
 	Note("readall", len(b), err != nil)
+	return b, err
+}
+
+// Mmap is syscall.Mmap with a fault choice: another process truncates the file while it is
+// mapped. Touching the pages beyond the new end then raises SIGBUS, which no Go program
+// survives ("fatal error: fault"); the model lets the thread die at once instead.
+func Mmap(fd int, offset int64, length int, prot int, flags int) ([]byte, error) {
+	if cur == nil || cur.aborted {
+		return syscall.Mmap(fd, offset, length, prot, flags)
+	}
+	Yield("io-mmap")
+	if FaultsEnabled() && Choose(2, "mmap-truncated") == 1 {
+		Note("mmap-truncated")
+		panic("SIGBUS (modelled): the mapped file was truncated by another process while its pages were being read - fatal error: fault")
+	}
+	b, err := syscall.Mmap(fd, offset, length, prot, flags)
+	Note("mmap", len(b), err != nil)
 	return b, err
 }
